@@ -515,7 +515,8 @@ def read_vti(raw: bytes) -> dict:
         if nbytes % 8 or off + hsize + nbytes > len(body):
             raise Malformed("block size")
         vals = np.frombuffer(body, dtype=bo + "i8", count=nbytes // 8, offset=off + hsize)
-        arrays.append({"name": da.get("Name"), "offset": off, "nbytes": int(nbytes), "values": [int(v) for v in vals]})
+        arrays.append({"name": da.get("Name"), "type": da.get("type"), "format": da.get("format"), "offset": off,
+                       "nbytes": int(nbytes), "values": [int(v) for v in vals]})
         end = max(end, off + hsize + nbytes)
     scal = cds[0].get("Scalars")
     trailer = body[end:]
@@ -523,7 +524,9 @@ def read_vti(raw: bytes) -> dict:
         raise Malformed("trailer after the last block")
     words = [int(v) for v in np.frombuffer(body[:end], dtype=bo + "i8")] if end % 8 == 0 else "misaligned"
     return {"whole": whole, "piece": pext, "origin": origin, "spacing": spacing, "ncells": ncells, "arrays": arrays,
-            "scalars": scal, "words": words}
+            "scalars": scal, "words": words, "file_type": root.get("type"), "version": root.get("version"),
+            "byte_order": root.get("byte_order"), "header_type": root.get("header_type"), "encoding": "raw",
+            "head": raw[:m.end()], "tail": trailer, "body_bytes": end}
 
 
 # ----------------------------------------------------------------------------- the property
@@ -794,7 +797,6 @@ class C16(Prop):
         from pewlib.io import vtk
 
         shape, names = case["shape"], case["names"]
-        size = int(np.prod(shape))
         layout, order = case.get("layout"), case.get("order", "C")
         try:
             data = build_structured(shape, names, case["vals"], layout, order)
@@ -805,42 +807,74 @@ class C16(Prop):
         note = ""
         n0, n1 = shape[0], shape[1]
         n2 = shape[2] if len(shape) == 3 else 1
-        rep = ctx.driver.call("c16.vtk", n0=n0, n1=n1, n2=n2,
-                              fields=[{"name": n, "data": vals} for n, vals in zip(names, case["vals"])])
-
-        def view(side):
-            return {"extent": side["extent"], "arrays": side["arrays"], "appended": side["appended"],
-                    "ncells_times_8": [side["extent"][0] * side["extent"][1] * side["extent"][2] * 8] * len(names),
-                    "wellformed": True, "spacing_ok": True, "decodes_to_source": True, "scalars_known": True}
-
+        endian = "LittleEndian" if sys.byteorder == "little" else "BigEndian"  # the model's opaque byte-order token
+        sp_tokens = [str(x) for x in spacing]  # the model's opaque spacing tokens: what an f-string prints
+        raw, f, real_head = b"", None, ""
         try:
             vtk.save(path, data, spacing)
             raw = path.read_bytes()
             f = read_vti(raw)
-            ext_ok = f["whole"][0::2] == [0, 0, 0] and f["piece"] == f["whole"]
-            nx, ny, nz = f["whole"][1::2]
-            dec_ok = True
-            if ext_ok:
-                for n, a in zip(names, f["arrays"]):
-                    if len(a["values"]) != nx * ny * nz or (nx, ny, nz) != (n1, n0, n2):
-                        dec_ok = False
-                        continue
-                    # x fastest, then y, then z; x along columns, y counted from the bottom row
-                    cube = np.array(a["values"], dtype="<i8").reshape((nz, ny, nx))
-                    src = np.array(case["vals"][names.index(n)], dtype="<i8").reshape(n0, n1, n2)
-                    back = cube.transpose(1, 2, 0)[::-1, :, :]
-                    dec_ok = dec_ok and bool(np.array_equal(back, src))
-            impl = {"extent": [nx, ny, nz], "arrays": f["arrays"], "appended": f["words"],
-                    "ncells_times_8": [f["ncells"] * 8] * len(f["arrays"]), "wellformed": bool(ext_ok),
-                    "spacing_ok": all(core.close(x, float(y), rel=1e-6) for x, y in zip(f["spacing"], spacing)),
-                    "decodes_to_source": dec_ok, "scalars_known": f["scalars"] in [a["name"] for a in f["arrays"]]}
+            real_head = f["head"].decode()
         except Malformed as e:
             impl = {"wellformed": False}
             note = f"malformed: {e}"
         except Exception as e:
             impl = {"raises": type(e).__name__}
             note = str(e)[:200]
-        feats = shape_features(n0, n1) | {"vtk", f"vtk:{len(shape)}-D", f"vtk:elements={min(len(names), 3)}{'+' if len(names) > 3 else ''}"}
+        rep = ctx.driver.call("c16.vtk", n0=n0, n1=n1, n2=n2, endian=endian, spacing=sp_tokens, head=real_head,
+                              fields=[{"name": n, "data": vals} for n, vals in zip(names, case["vals"])])
+        want_spacing = [tok(float(t)) for t in sp_tokens]
+
+        def num(tokens, reference=None):
+            """header numbers as bit tokens; a spacing within 1e-6 (relative) of the requested one counts as that one"""
+            try:
+                vals = [float(t) for t in tokens]
+            except ValueError:
+                return ["unparsable"] + list(tokens)
+            if reference is not None and len(vals) == len(reference) and \
+                    all(core.close(v, untok(r), rel=1e-6) for v, r in zip(vals, reference)):
+                return list(reference)
+            return [tok(v + 0.0) for v in vals]
+
+        def meta_view(m):
+            return {**{k: m[k] for k in ("file_type", "version", "byte_order", "header_type", "whole", "piece", "scalars", "encoding")},
+                    "origin": num(m["origin"]), "spacing": num(m["spacing"], want_spacing),
+                    "arrays": [{k: a[k] for k in ("name", "type", "format", "offset")} for a in m["arrays"]]}
+
+        def view(side):
+            """one side of the driver's reply in the form the independent reader's findings are put in"""
+            if "meta" not in side:
+                return side
+            ext = side["meta"]["whole"]
+            ncells8 = (ext[1] - ext[0]) * (ext[3] - ext[2]) * (ext[5] - ext[4]) * 8 if len(ext) == 6 else None
+            return {"meta": meta_view(side["meta"]), "blocks": side["blocks"], "appended": side["appended"],
+                    "ncells_times_8": [ncells8] * len(side["meta"]["arrays"]), "lean_reader": meta_view(side["meta"])}
+
+        model, spec = view(rep["model"]), view(rep["spec"])
+        hyp = False
+        feats = set()
+        if f is not None:
+            et_meta = {**{k: f[k] for k in ("file_type", "version", "byte_order", "header_type", "whole", "piece", "scalars", "encoding")},
+                       "origin": [repr(x) for x in f["origin"]], "spacing": [repr(x) for x in f["spacing"]], "arrays": f["arrays"]}
+            impl = {"meta": meta_view(et_meta),
+                    "blocks": [{"nbytes": a["nbytes"], "values": a["values"]} for a in f["arrays"]],
+                    "appended": f["words"], "ncells_times_8": [f["ncells"] * 8] * len(f["arrays"]),
+                    # the model's own reader on the real header text; None when the text is outside the line-per-tag subset
+                    "lean_reader": meta_view(rep["real_meta"]) if rep["real_meta"] is not None else None}
+            if rep["real_meta"] is None:
+                feats.add("vtk:header-outside-lean-reader-subset")
+                impl["lean_reader"] = impl["meta"]  # the independent reader's view stands in; nothing compared twice
+            # the model's rendering of the whole file against the bytes pewlib wrote
+            r = rep["rendered"]
+            if r is not None:
+                bo = "<" if endian == "LittleEndian" else ">"
+                mine = r["head"].encode() + b"".join(struct.pack(bo + "q", int(w)) for w in r["words"]) + r["tail"].encode()
+                same = mine == raw
+                feats.add("vtk:file=model-rendering" if same else "vtk:file!=model-rendering")
+                if not same and r["head"].encode() == f["head"]:
+                    feats.add("vtk:header-text=model-rendering")
+                hyp = same and bool(rep["head_ok"])
+        feats |= shape_features(n0, n1) | {"vtk", f"vtk:{len(shape)}-D", f"vtk:elements={min(len(names), 3)}{'+' if len(names) > 3 else ''}"}
         if n2 > 1:
             feats.add("vtk:nz>1")
         feats |= {"vtk:layout=" + ("packed" if layout is None else layout["via"]), "vtk:order=" + order} | layout_features(data, "vtk:")
@@ -850,9 +884,10 @@ class C16(Prop):
             feats.add("vtk:name-contains-entity-text")
         if any(math.isnan(untok(t)) for vals in case["vals"] for t in vals):
             feats.add("value:nan")
+        if any(not isinstance(x, float) for x in spacing):
+            feats.add("vtk:integer-spacing")
         feats |= {x for vals in case["vals"] for x in classify(vals)}
-        model, spec = view(rep["model"]), view(rep["spec"])
-        return outcome(impl, model, spec, features=feats, note=note)
+        return outcome(impl, model, spec, hyp=hyp, features=feats, note=note)
 
     # ------------------------------------------------------------------ shrinking
     def shrink(self, case):
